@@ -11,7 +11,8 @@ pub fn sigma01() -> Vec<char> {
         0x61u32, 0x41, 0x20, 0x31, 0x2D, // ASCII lower, upper, space, digit (EN), hyphen (ES)
         0xA0, 0x3000, // non-ASCII Zs, 2 and 3 bytes (U+3000 is also <wide>)
         0xE9, 0xC9, 0x65E5, 0x10400, 0x13A0, // letters of 2,2,3,4,3 bytes (cased and uncased)
-        0x1C5, 0x130, // titlecase; lowercase mapping of two characters
+        0x1C5, 0x130, // titlecase; lowercase mapping of two characters (one byte LONGER in UTF-8)
+        0x1E9E, 0x212A, // lowercase mapping one / two bytes SHORTER (cancels the growth of U+0130)
         0xFF21, 0xFF76, // wide, narrow
         0xA8, 0xFDFA, // NFKC introduces a space / expands to 18 characters with spaces
         0x301, // combining mark (NSM)
@@ -75,6 +76,31 @@ pub fn all_ops(s: &str, chars: &[char], st: &mut Stats) {
     }
     watch::leave();
     st.traces += 1;
+}
+
+/// the five rule functions of every profile, handed an owned `String` (in-place fast paths)
+pub fn owned_rule_ops(s: &str, st: &mut Stats) {
+    for p in Prof::ALL {
+        for rf in RuleFn::ALL {
+            let r = rule_owned(p, rf, s);
+            st.evaluations += 1;
+            if matches!(r, Out::Panic(_)) {
+                bad(&format!("{}(String)", rf.name()), s, p.name(), &r, st);
+            }
+        }
+    }
+}
+
+/// Cancellation templates: every scalar value next to a character whose mapping grows in UTF-8
+/// and next to one whose mapping shrinks, behind a prefix that makes an earlier rule rewrite
+/// the label (so that later rules receive an owned buffer).
+fn cancellation_templates(c: char) -> [Vec<char>; 4] {
+    [
+        vec![' ', '\u{130}', c],
+        vec![' ', c, '\u{1e9e}'],
+        vec!['\u{ff21}', '\u{130}', c],
+        vec!['\u{ff21}', c, '\u{1e9e}'],
+    ]
 }
 
 /// the operations that reach every table lookup: enforce and compare of each profile, allows
@@ -170,6 +196,11 @@ pub fn run(_env: &Env, run: &Run) -> (Stats, Coverage) {
             let s: String = t.iter().collect();
             core_ops(&s, &t, st);
         }
+        for t in cancellation_templates(c) {
+            let s: String = t.iter().collect();
+            core_ops(&s, &t, st);
+            owned_rule_ops(&s, st);
+        }
         // derived property through the char entry point
         for cl in [Class::Identifier, Class::Freeform] {
             st.evaluations += 1;
@@ -192,11 +223,42 @@ pub fn run(_env: &Env, run: &Run) -> (Stats, Coverage) {
         }
         st.merge(s2);
     }
+    // (b') stabilize is public too: every function on a 3-element universe (two universes) x every
+    // start x 6 Cow styles x 4 argument forms must return (the values are C13's business)
+    {
+        let k = 3usize;
+        let nf = ((k + 2) as u64).pow(k as u32);
+        let mut s3 = Stats::default();
+        for idx in 0..nf {
+            let f = crate::props::c13::decode(idx, k);
+            for start in 0..k {
+                for uni in 0..2u8 {
+                    for style in 0..6u8 {
+                        for form in 0..4u8 {
+                            s3.states += 1;
+                            s3.transitions += 1;
+                            crate::props::c13::check_fn(&f, k, start, style, form, uni, &mut s3);
+                        }
+                    }
+                }
+            }
+        }
+        let panics = s3.counters.get("viol:panic").copied().unwrap_or(0);
+        s3.violations.retain(|v| v.kind == "panic");
+        s3.violation_count = panics;
+        s3.counters.clear();
+        if panics > 0 {
+            s3.add("viol:panic", panics);
+        }
+        s3.count("out:stabilize-returned");
+        st.merge(s3);
+    }
     // (c)+(d) string tree: all operations; context rules at every position for short strings
     let sigma = crate::sig::rotated(_env, sigma01(), run.seed);
     let n = run.tier.pick(3, 4);
     st.merge(strtree(&sigma, n, |chars, s, st| {
         all_ops(s, chars, st);
+        owned_rule_ops(s, st);
         if chars.len() <= 3 {
             all_ctx(s, chars, st);
         }
@@ -213,6 +275,7 @@ pub fn run(_env: &Env, run: &Run) -> (Stats, Coverage) {
     st.merge(run_structural(&sigma, run.tier, |s, st| {
         let chars: Vec<char> = s.chars().collect();
         all_ops(s, &chars, st);
+        owned_rule_ops(s, st);
         st.count("out:returned");
     }));
     // same-buffer histories (caches keyed by the address and length of the argument)
@@ -265,11 +328,11 @@ pub fn run(_env: &Env, run: &Run) -> (Stats, Coverage) {
     st.sample(json!({"input": ["U+200C"], "op": "rule_zero_width_nonjoiner", "position": "usize::MAX", "expected": "Undefined, no arithmetic overflow"}));
     st.sample(json!({"input": "0xFFFFFFFF", "op": "get_value_from_codepoint / get_context_rule", "expected": "a value, no panic"}));
     let cov = Coverage {
-        rule: format!("(a) every scalar value in 12 templates (alone, next to ASCII, before/after/around spaces, after NBSP, after a Hebrew letter, before a combining mark, between a 2-byte letter and U+3000, around a fullwidth letter) through 54 operations: 4 profiles x (prepare, enforce, static prepare, static enforce, compare(s,s), compare(s,a), compare(a,s), static compare, 5 Rules methods) + allows of both classes; (b) every u32 in {} through get_value_from_codepoint of both classes and get_context_rule; (c) every string of length <= {} over a {}-symbol alphabet with one member of every behaviour class and every UTF-8 length, all operations; (c') pumped runs a^k b, b a^k, a^k b a for k in 6..9, 15..17, 30..33, 63..65 over the alphabet (127..1025 over 6 symbols) every ASCII character at every offset of 7..33-byte
+        rule: format!("(a) every scalar value in 12 templates (alone, next to ASCII, before/after/around spaces, after NBSP, after a Hebrew letter, before a combining mark, between a 2-byte letter and U+3000, around a fullwidth letter) through 54 operations, plus 4 cancellation templates (behind a space / a fullwidth letter, next to a mapping that grows and one that shrinks in UTF-8) through enforce, compare and the 20 rule functions with an owned String: 4 profiles x (prepare, enforce, static prepare, static enforce, compare(s,s), compare(s,a), compare(a,s), static compare, 5 Rules methods) + allows of both classes; (b) every u32 in {} through get_value_from_codepoint of both classes and get_context_rule; (c) every string of length <= {} over a {}-symbol alphabet with one member of every behaviour class and every UTF-8 length, all operations; (c') pumped runs a^k b, b a^k, a^k b a for k in 6..9, 15..17, 30..33, 63..65 over the alphabet (127..1025 over 6 symbols) every ASCII character at every offset of 7..33-byte
     // ASCII strings (two fillers), alphabet symbols alone and in pairs inside 16..41-byte ASCII strings,
     // all of them at every address residue modulo 8 / 16 (sub-slices of a larger buffer), all operations; (c'') every ordered pair of equal-byte-length strings of length <= 3 over 9 symbols run one after the other in the same allocation; (d) the eight context rule functions on every such string of length <= 3 at positions 0..=len+1, usize::MAX-1, usize::MAX, usize::MAX/2, 2^32; oracle: no unwind (built with overflow checks and debug assertions on), no case running longer than 10 s (watchdog); non-trivial = strings with a multi-byte character", if exhaustive_u32 { "0..=u32::MAX" } else { "0..=0x1FFFFF + lattice" }, n, sigma.len()),
         alphabet: json!(sigma.iter().map(|c| format!("U+{:04X}", *c as u32)).collect::<Vec<_>>()),
-        bound_completed: format!("sweep 1,112,064 x 12 templates x 54 ops; tree length <= {} ({} strings)", n, tree_size(sigma.len(), n)),
+        bound_completed: format!("sweep 1,112,064 x (12 templates x 54 ops + 4 templates x 30 ops); tree length <= {} ({} strings)", n, tree_size(sigma.len(), n)),
         exhaustive: false,
         assumptions: vec!["allocation failure is not explored".into(), "a slicing panic depends only on (predicate class, UTF-8 length, position), all of which the alphabet x length bound enumerates".into()],
         extra: json!({}),
@@ -285,8 +348,12 @@ pub fn replay(_env: &Env, case: &Case) -> Vec<Violation> {
             let chars: Vec<char> = s.chars().collect();
             let mut all = Stats::default();
             all_ops(&s, &chars, &mut all);
+            owned_rule_ops(&s, &mut all);
             // keep the violations of the same operation when one is named
             st.violations = all.violations.into_iter().filter(|v| case.op == "ops" || v.case.extra == case.extra).collect();
+        }
+        "stabilize" => {
+            st.violations = crate::props::c13::replay(_env, case).into_iter().filter(|v| v.kind == "panic").collect();
         }
         "ctx" | "context rules" => {
             let s = case.str_at(0);
